@@ -590,6 +590,30 @@ fn gen_value_for(
     types: &[(String, Vec<(String, String)>)],
     depth: usize,
 ) -> String {
+    let mut budget = 1500usize;
+    gen_value_budgeted(rng, ty, types, depth, &mut budget)
+}
+
+/// `budget` bounds the number of values in one document: nested fixed-size arrays and recursive
+/// struct types would otherwise multiply (3^64 elements for `uint8[3]…[3]`).
+fn gen_value_budgeted(
+    rng: &mut Rng,
+    ty: &str,
+    types: &[(String, Vec<(String, String)>)],
+    depth: usize,
+    budget: &mut usize,
+) -> String {
+    if *budget == 0 {
+        // out of budget: the smallest value of the right shape
+        return if ty.ends_with(']') {
+            "[]".into()
+        } else if types.iter().any(|(n, _)| n == ty) {
+            "{}".into()
+        } else {
+            "1".into()
+        };
+    }
+    *budget -= 1;
     if rng.chance(1, 10) {
         // type-confused value
         return ["null", "1", "\"x\"", "[]", "{}", "true", "-1", "1.5"][rng.usize_below(8)].into();
@@ -603,7 +627,7 @@ fn gen_value_for(
             .unwrap_or_else(|| rng.range(0, 2) as usize);
         let count = if depth > 70 { count.min(1) } else { count };
         let items: Vec<String> = (0..count)
-            .map(|_| gen_value_for(rng, elem, types, depth + 1))
+            .map(|_| gen_value_budgeted(rng, elem, types, depth + 1, budget))
             .collect();
         return format!("[{}]", items.join(","));
     }
@@ -620,7 +644,7 @@ fn gen_value_for(
             fields.push(format!(
                 "{}:{}",
                 serde_json::to_string(name).unwrap(),
-                gen_value_for(rng, t, types, depth + 1)
+                gen_value_budgeted(rng, t, types, depth + 1, budget)
             ));
         }
         return format!("{{{}}}", fields.join(","));
